@@ -80,6 +80,8 @@ class HyperVFile:
                     self.object_tables.append(new_object_table)
 
                 if entry.type == ObjectEntryType.KeyTable:
+                    if any(table.offset == entry.offset for tables in self.key_tables.values() for table in tables):
+                        raise ValueError(f"Key table at 0x{entry.offset:x} is referenced more than once")
                     key_table = HyperVStorageKeyTable(self, entry.offset, entry.size)
                     if key_table.index not in self.key_tables:
                         self.key_tables[key_table.index] = []
